@@ -49,6 +49,7 @@ type Universe struct {
 	Inlined []InlineReport // helper calls expanded before analysis
 	Renamed []string       // functions recognised as renamed (old -> new)
 	Expanded map[*ssa.Function]bool // helpers all of whose uses were expanded: not analysed on their own
+	ExpandedWrappers map[*ssa.Function]bool // bound-method wrappers into which an unknown method was expanded
 
 	repoFuncs  []*ssa.Function
 	byName     map[string]*ssa.Function
@@ -373,13 +374,14 @@ func (u *Universe) index() {
 		if !u.IsRepoFunc(fn) {
 			continue
 		}
-		if top := topLevel(fn); u.Expanded[top] {
-			continue
+		if u.Expanded[fn] {
+			continue // (its closures stay: their creation was cloned into the callers)
 		}
 		if fn.Synthetic != "" && fn.Parent() == nil {
 			// wrappers, thunks, init: keep package init (it holds global
-			// initialisers) but no other synthetic function
-			if fn.Name() != "init" {
+			// initialisers) but no other synthetic function - except bound-method
+			// wrappers that now hold the body of an expanded method
+			if fn.Name() != "init" && !u.ExpandedWrappers[fn] && !strings.HasPrefix(fn.Synthetic, "instance of") {
 				continue
 			}
 		}
